@@ -71,12 +71,21 @@ def expected_pulls(shape):
 
 
 def recover(state, shape, tail, ref, label, d):
-    """Materialise a crash/fault state and run the real next run on it."""
+    """Materialise a crash/fault state and run the real next run on it - and the run after that, which picks up
+    whatever the recovery run committed."""
     root = os.path.join(d, 'rec')
     shutil.rmtree(root, ignore_errors=True)
     fsrec.materialise_state(state, root)
     committed = os.path.join('cp', 'stream.ndjson') in state[0]
     r = run_flow(root, shape, tail)
+    if r[0] == 'ok' and (r[1], r[2]) == (ref[1], ref[2]):
+        r3 = run_flow(root, shape, tail)
+        if r3[0] != 'ok' or (r3[1], r3[2]) != (ref[1], ref[2]) or r3[3] != 0:
+            shutil.rmtree(root, ignore_errors=True)
+            return ('run-after-recovery', '%s: the recovery run is correct, but the run after it %s' %
+                    (label, 'raises %s' % r3[1] if r3[0] != 'ok' else ('re-read the sources' if r3[3] else
+                     'picked up a checkpoint that differs from the uninterrupted result: rows per resource %r vs %r'
+                     % ([len(x) for x in r3[1]], [len(x) for x in ref[1]])))), committed
     shutil.rmtree(root, ignore_errors=True)
     if r[0] == 'exc':
         return ('recovery-raises', '%s: the next run raises %s' % (label, r[1])), committed
@@ -88,6 +97,46 @@ def recover(state, shape, tail, ref, label, d):
         return ('used-uncommitted', '%s: the next run did not read the sources although no committed checkpoint '
                 'existed' % label), committed
     return None, committed
+
+
+def same_object_retry(d, shape, tail, ref, where, ri, j):
+    """The SAME Flow object is run again after its failure (the transient fault gone), then a fresh Flow resumes."""
+    import gc
+    root = os.path.join(d, 'so')
+    shutil.rmtree(root, ignore_errors=True)
+    os.makedirs(root)
+    pulls = []
+    fault = [where, ri, j]
+    armed = [True]
+
+    class OnceFault(tuple):
+        pass
+    # make_flow reads fault[0..2] at row time: disarm by replacing the resource index
+    flow = make_flow(root, shape, tail, pulls, fault)
+    try:
+        flow.results()
+        first = 'ok'
+    except Exception:
+        first = 'exc'
+    gc.collect()
+    fault[1] = -1          # the fault is gone
+    label = 'same Flow object retried after an exception in the %sstream step at resource %d row %s' % (where, ri, j)
+    try:
+        res, dp, _ = flow.results()
+        second = ('ok', [enc_rows(r) for r in res], copy.deepcopy(dp.descriptor))
+    except Exception as e:
+        second = ('exc', core.exc_sig(e) + ': ' + str(e)[:80])
+    gc.collect()
+    out = None
+    if second[0] == 'ok' and (second[1], second[2]) != (ref[1], ref[2]):
+        out = ('retry-differs', '%s: the retry returns rows per resource %r, uninterrupted %r' % (label, [len(x) for x in second[1]], [len(x) for x in ref[1]]))
+    elif second[0] == 'ok':
+        r3 = run_flow(root, shape, tail)
+        if r3[0] != 'ok' or (r3[1], r3[2]) != (ref[1], ref[2]):
+            out = ('run-after-retry', '%s: the retry is correct, but a later run %s' % (label, 'raises %s' % r3[1] if r3[0] != 'ok' else
+                   'picks up a checkpoint that differs: rows per resource %r vs %r' % ([len(x) for x in r3[1]], [len(x) for x in ref[1]])))
+    shutil.rmtree(root, ignore_errors=True)
+    return out
 
 
 def check_scenario(sc):
@@ -160,6 +209,11 @@ def check_scenario(sc):
                           {'kind': 'stepfault', 'where': where, 'ri': ri, 'j': j})
                     v, committed = recover(after, shape, tail, ref, 'exception in %sstream step at resource %d row %s'
                                            % (where, ri, j), d)
+                    if not v:
+                        v2 = same_object_retry(d, shape, tail, ref, where, ri, j)
+                        note('same-object-retry')
+                        if v2:
+                            V(v2[0], v2[1], {'kind': 'same-object-retry', 'where': where, 'ri': ri, 'j': j})
                     note('stepfault:%s:%s' % (where, 'committed' if committed else 'uncommitted'),
                          h(['stepfault', shape, tail, where, ri, j]))
                     if v:
